@@ -406,6 +406,27 @@ func c14Gen(j *rt.Job, seed uint64) (cases []c14In) {
 			}
 			strs = append(strs, string(b))
 		}
+		// valid words joined by other separators than one blank, in every mix (the number of blanks and the
+		// number of words then disagree)
+		seps := []string{" ", "\t", "\n", "\r\n", "  ", " \t", "\v", "\u00a0"}
+		for t := 0; t < 400; t++ {
+			n := []int{2, 3, 4, 31, 32, 33, 34, 35, 36, 48, 64}[t%11]
+			var sb strings.Builder
+			for k := 0; k < n; k++ {
+				if k > 0 {
+					if rng.Intn(4) == 0 {
+						sb.WriteString(seps[1+rng.Intn(len(seps)-1)])
+					} else {
+						sb.WriteString(" ")
+					}
+				}
+				sb.WriteString(words[rng.Intn(len(words))])
+			}
+			if t%7 == 0 {
+				sb.WriteString(seps[rng.Intn(len(seps))])
+			}
+			strs = append(strs, sb.String())
+		}
 		for _, s := range strs {
 			add(c14In{EP: "misc.MnemonicToSeedBin", Str: s, Cls: "phrases"})
 			add(c14In{EP: "misc.MnemonicToExtendedSeedBin", Str: s, Cls: "phrases"})
@@ -528,11 +549,21 @@ func c14Run(j *rt.Job, seed uint64, r *rt.Rec) {
 	if j.Race {
 		build = "race+checkptr"
 	}
-	n := 0
+	// this part's cases, in a seeded shuffled order (so that calls with different parameters precede each
+	// other in different orders in different parts and runs)
+	var mine []int
 	for i := range cases {
-		if i%parts != part {
-			continue
+		if i%parts == part {
+			mine = append(mine, i)
 		}
+	}
+	srng := rt.NewRand(seed, j.ID+"/order")
+	for a := len(mine) - 1; a > 0; a-- {
+		b := srng.Intn(a + 1)
+		mine[a], mine[b] = mine[b], mine[a]
+	}
+	n := 0
+	for _, i := range mine {
 		c := &cases[i]
 		c14Mark(j.ID, i)
 		o, why := c14Exec(c)
